@@ -4,6 +4,7 @@ import (
 	"go/token"
 	"go/types"
 	"sort"
+	"strings"
 
 	"golang.org/x/tools/go/ssa"
 )
@@ -217,7 +218,8 @@ type rangeLoop struct {
 	*loop
 	seq    ssa.Value // the ranged-over value (slice or *array)
 	phi    *ssa.Phi
-	incr   *ssa.BinOp // k+1: the index used in the body
+	incr   ssa.Value  // the index used in the body (k+1 of the range lowering; the counter of a counted loop)
+	step   *ssa.BinOp // the increment instruction
 	bodyBB *ssa.BasicBlock
 	doneBB *ssa.BasicBlock
 }
@@ -271,7 +273,58 @@ func rangeLoops(fn *ssa.Function) []*rangeLoop {
 		if l.body[ln.Block()] {
 			continue // len must be evaluated once, before the loop
 		}
-		out = append(out, &rangeLoop{loop: l, seq: ln.Call.Args[0], phi: phi, incr: incr, bodyBB: h.Succs[0], doneBB: h.Succs[1]})
+		out = append(out, &rangeLoop{loop: l, seq: ln.Call.Args[0], phi: phi, incr: incr, step: incr, bodyBB: h.Succs[0], doneBB: h.Succs[1]})
+	}
+	// counted loops `for i := 0; i < len(S); i++` visit the same full range
+	for _, l := range naturalLoops(fn) {
+		h := l.header
+		i := blockIf(h)
+		if i == nil {
+			continue
+		}
+		cmp, ok := i.Cond.(*ssa.BinOp)
+		if !ok || cmp.Op != token.LSS {
+			continue
+		}
+		phi, ok := cmp.X.(*ssa.Phi)
+		if !ok || phi.Block() != h {
+			continue
+		}
+		ln, ok := cmp.Y.(*ssa.Call)
+		if !ok {
+			continue
+		}
+		if b, ok := ln.Call.Value.(*ssa.Builtin); !ok || b.Name() != "len" {
+			continue
+		}
+		var step *ssa.BinOp
+		okPhi := true
+		for j, e := range phi.Edges {
+			if l.body[h.Preds[j]] {
+				inc, isInc := e.(*ssa.BinOp)
+				if !isInc || inc.Op != token.ADD || inc.X != ssa.Value(phi) {
+					okPhi = false
+				} else if c, isC := constInt(inc.Y); !isC || c != 1 {
+					okPhi = false
+				} else {
+					step = inc
+				}
+			} else if c, isC := constInt(e); !isC || c != 0 {
+				okPhi = false
+			}
+		}
+		if !okPhi || step == nil {
+			continue
+		}
+		// the sequence must be the same value in every iteration: defined before the loop, or a plain load
+		seq := ln.Call.Args[0]
+		if in, isIn := seq.(ssa.Instruction); isIn && l.body[in.Block()] {
+			if u, isU := seq.(*ssa.UnOp); !isU || u.Op != token.MUL {
+				continue
+			}
+		}
+		// the counter is only changed by its own increment
+		out = append(out, &rangeLoop{loop: l, seq: seq, phi: phi, incr: phi, step: step, bodyBB: h.Succs[0], doneBB: h.Succs[1]})
 	}
 	return out
 }
@@ -293,7 +346,15 @@ func (rl *rangeLoop) isElem(v ssa.Value) bool {
 }
 
 func sameSeq(a, b ssa.Value) bool {
-	return a == b
+	if a == b {
+		return true
+	}
+	// separate loads of the same variable / field (counted loops reload the sequence)
+	if globalP != nil {
+		da, db := globalP.D(a), globalP.D(b)
+		return da == db && da != "" && !strings.Contains(da, "φ") && !strings.HasPrefix(da, "new#") && !strings.HasPrefix(da, "make#")
+	}
+	return false
 }
 
 // errorResultIndex returns the index of the last result of type error, or -1.
